@@ -82,6 +82,9 @@ TTick ==
   /\ rem' = IF now' = Tr.instants[pos + 1].t THEN EvAt(pos + 1) ELSE {}
   /\ UNCHANGED <<tid, verdict, why>>
 
+\* the schedule together with the horizon the solution reports (used by the indicators that are relative to it)
+SchedR == [hz |-> Tr.fin.horizon] @@ Schedule
+
 \* what the implementation reported at the end must be what the machine computed
 ReportClauses ==
   { <<"R_buffer_history:" \o P.buffers[b].name,
@@ -89,9 +92,9 @@ ReportClauses ==
         = [i \in 1..Len(Tr.fin.hist[b]) |-> <<Tr.fin.hist[b][i][1], Tr.fin.hist[b][i][2]>>]>> : b \in B }
   \cup
   { <<"R_indicator:" \o P.inds[i].name,
-      LET r == IndValue(P, Schedule, FinalHist, lv0, P.inds[i])
+      LET r == IndValue(P, SchedR, FinalHist, lv0, P.inds[i])
       IN  \* an indicator in a corner the documentation leaves open for this schedule (UnspecIndOne) is not judged
-          (Len(Tr.fin.ind[i]) > 0 /\ UnspecIndOne(P, Schedule, P.inds[i]) = {})
+          (Len(Tr.fin.ind[i]) > 0 /\ UnspecIndOne(P, SchedR, P.inds[i]) = {})
              => (r[1] <= Tr.fin.ind[i][1] /\ Tr.fin.ind[i][1] <= r[2])>> : i \in Inds(P) }
   \cup
   { <<"R_assignment:" \o P.workers[P.uses[u].worker].name \o "/" \o P.tasks[P.uses[u].task].name,
